@@ -140,6 +140,29 @@ BadDataProg(pos) ==
          Ln(40, <<EndS>>)>>,
        [kind |-> "baddata", expect |-> <<>>, endk |-> "error", code |-> 2, line |-> 20])
 BadDataFamily == {BadDataProg(pos) : pos \in 1..2}
+\* a READ of several variables that fails part-way (trapped, RESUME NEXT): the items already delivered to its earlier variables are
+\* consumed, the item that failed is not; the later READs continue from there (round-2 seeded change C22b wrote the DATA
+\* pointer back only when the whole READ statement had succeeded)
+ReadSt(vs) == [op |-> "READ", vs |-> vs, col |-> TRUE]
+PartReadProg(why) ==
+    LET handler == Ln(500, <<Prt([k |-> "err"]), [op |-> "RESUME", w |-> "NEXT", n |-> 0, col |-> TRUE]>>)
+        onerr   == Ln(5, <<[op |-> "ONERR", n |-> 500, col |-> TRUE]>>)
+    IN  IF why = "ood"        \* three items read in pairs: the second READ runs out of DATA after delivering 13
+        THEN P(<<onerr, Ln(10, <<DataSt(<<11, 12, 13>>)>>),
+                 Ln(20, <<ReadSt(<<"I", "J">>), Prt(V("I")), Prt(V("J"))>>),
+                 Ln(30, <<ReadSt(<<"A", "K%">>), Prt(C(0))>>),
+                 Ln(40, <<Prt(V("A"))>>),
+                 Ln(50, <<ReadSt(<<"J">>), Prt(C(0))>>),
+                 Ln(60, <<Prt(V("J")), EndS>>), handler>>,
+               [kind |-> "partread", expect |-> <<11, 12, 4, 0, 13, 4, 0, 12>>])
+        ELSE                 \* the second item does not fit the integer variable: Overflow; it stays unread and goes to A next
+             P(<<onerr, Ln(10, <<DataSt(<<1, 40000, 3>>)>>),
+                 Ln(20, <<ReadSt(<<"I", "K%">>), Prt(C(0))>>),
+                 Ln(30, <<Prt(V("I")), Prt(V("K%"))>>),
+                 Ln(40, <<ReadSt(<<"A">>), Prt(V("A"))>>),
+                 Ln(50, <<ReadSt(<<"J">>), Prt(V("J")), EndS>>), handler>>,
+               [kind |-> "partread", expect |-> <<6, 0, 1, 0, 40000, 3>>])
+PartReadFamily == {PartReadProg(why) : why \in {"ood", "ovf"}}
 
 (* ---------------- C21: error trapping and RESUME ---------------- *)
 Fault(f) == CASE f = "e5"   -> [op |-> "ERROR", e |-> C(5), col |-> TRUE]
